@@ -1260,7 +1260,7 @@ func slice(x, lo, hi, step_ Value) (Value, error) {
 	step := 1
 	if step_ != None {
 		var err error
-		step, err = AsInt32(step_)
+		step, err = asSaturatedInt32(step_)
 		if err != nil {
 			return nil, fmt.Errorf("invalid slice step: %s", err)
 		}
